@@ -1,4 +1,4 @@
-use self::generics_list::GenericsList;
+use self::generics_list::{GenericsKey, GenericsList};
 use scale_info::{form::PortableForm, Field, PortableRegistry, Type, TypeDef};
 use std::collections::{HashMap, HashSet};
 
@@ -130,7 +130,7 @@ fn types_equal_inner(
     a_parent_params: &GenericsList,
     b: u32,
     b_parent_params: &GenericsList,
-    visited: &mut HashSet<(u32, u32)>,
+    visited: &mut HashSet<(u32, u32, GenericsKey, GenericsKey)>,
     types: &PortableRegistry,
     is_root: bool,
 ) -> bool {
@@ -143,8 +143,10 @@ fn types_equal_inner(
 
     // Make note of this pair of IDs in case we recurse and see it again. If we do, the pair is
     // either still being compared further up the stack or was already found equal (a mismatch
-    // anywhere ends the whole comparison), so nothing new can be learned from it here.
-    if !visited.insert((a, b)) {
+    // anywhere ends the whole comparison), so nothing new can be learned from it here. The
+    // generics in scope are part of the note: whether two IDs are equal depends on them (`A` and
+    // `B` are equal where they are explained by the same generic parameter, not elsewhere).
+    if !visited.insert((a, b, a_parent_params.key(), b_parent_params.key())) {
         #[cfg(feature = "verif-hooks")]
         crate::verif_hooks::emit("te:both-seen", a, b, 0);
         return true;
@@ -331,6 +333,9 @@ mod generics_list {
     use scale_info::{form::PortableForm, TypeParameter};
     use std::rc::Rc;
 
+    /// See [`GenericsList::key`].
+    pub type GenericsKey = Vec<(u32, String)>;
+
     /// A list of generics by type ID. For a given type ID, we'll either
     /// return the index of the first generic param we find that matches it,
     /// or None. We can extend this list with more generics as we go.
@@ -380,6 +385,16 @@ mod generics_list {
                     .as_ref()
                     .and_then(|prev| prev.index_for_type_name(name))
             })
+        }
+
+        /// All generics in this list (type ID and name) in index order; identifies the list.
+        pub fn key(&self) -> GenericsKey {
+            let mut key = match &self.inner.previous {
+                Some(prev) => prev.key(),
+                None => Vec::new(),
+            };
+            key.extend(self.inner.generics_by_id.iter().cloned());
+            key
         }
 
         /// Create an empty list.
